@@ -480,6 +480,9 @@ func runC12(c *Cfg) {
 	t0 := time.Now()
 	c12TomlTrees(c, root.Sub(), c.Pick(2500, 40000))
 	c12TomlDocs(c, root.Sub(), c.Pick(2500, 40000))
+	// index-like keys and the other namespace-collision shapes of rooted keys (c12_index.go); own
+	// generator streams, so that the streams above stay what they were
+	c12IndexStream(c, NewRng(c.Seed*2654435761+12).Sub())
 	fmt.Fprintf(os.Stderr, "C12: toml codec part %.1fs\n", time.Since(t0).Seconds())
 	if c.Focus {
 		// failing-input search: denser codec sweep and a CLI sweep restricted to TOML
@@ -519,6 +522,10 @@ func runC12(c *Cfg) {
 		k := c12GenCase(cr.Sub(), i, c.Focus)
 		cases = append(cases, k)
 		c.Case(fmt.Sprint(k.describe()), k.bad == "")
+	}
+	for _, k := range c12IndexCases(c, NewRng(c.Seed*2654435761+13).Sub(), 900000) {
+		cases = append(cases, k)
+		c.Case(fmt.Sprint(k.describe()), true)
 	}
 	var wg sync.WaitGroup
 	ch := make(chan *c12Case)
